@@ -52,7 +52,9 @@ Fixpoint nat_list_eqb (a b : list nat) : bool :=
 (** ** C12 *)
 Inductive c12_op : Type :=
 | Single (o : op)
-| Batched (fs : list filter) (arrival : list (list nat)).
+| Batched (fs : list filter) (arrival : list (list nat))
+| BatchedMulti (cs : list (handle * filter)) (arrival : list (list nat))   (* callers on several handles *)
+| Seq (ops : list op).                                                     (* inside one caller transaction *)
 
 Record c12_case : Type := mk_c12 {
   k_table : table; k_handle : handle; k_ctx : ctx; k_op : c12_op;
@@ -76,6 +78,17 @@ Definition c12_check (c : c12_case) : list nat :=
       ++ (if obs_list_eqb (map obs_of_event ev) (k_events c) then [] else [2])
       ++ (if arrival_consistent (k_handle c) (k_table c) fs arrival then [] else [3])
       ++ (if batched_wfb (k_handle c) (k_table c) fs then [] else [4])
+  | BatchedMulti cs arrival =>
+      let (ev, outs) := run_batched_multi (k_table c) cs arrival in
+      (if nat_list_eqb (map outcome_code outs) (k_outcomes c) then [] else [1])
+      ++ (if obs_list_eqb (map obs_of_event ev) (k_events c) then [] else [2])
+      ++ (if arrival_consistent_multi (k_table c) cs arrival then [] else [3])
+      ++ (if batched_multi_wfb (k_table c) cs then [] else [4])
+  | Seq ops =>
+      let (ev, outs) := run_seq (k_handle c) (k_table c) (batching (k_ctx c)) ops in
+      (if nat_list_eqb (map outcome_code outs) (k_outcomes c) then [] else [1])
+      ++ (if obs_list_eqb (map obs_of_event ev) (k_events c) then [] else [2])
+      ++ (if forallb (op_wfb (k_handle c) (k_table c)) ops then [] else [4])
   end.
 
 Fixpoint mismatches_c12 (_ : nat) (cs : list (nat * c12_case)) : list (nat * list nat) :=
